@@ -30,6 +30,9 @@ pub struct ViewCase {
     pub a: u64,
     pub b: u64,
     pub ops: Vec<VOp>,
+    /// history of the handle before the view gets it: position it was left at by earlier reads/seeks (0 = fresh)
+    #[serde(default)]
+    pub pre: u64,
 }
 
 #[derive(Clone, Debug, PartialEq, Serialize, Deserialize)]
@@ -82,7 +85,8 @@ pub fn gen_view(rng: &mut Rng) -> ViewCase {
             _ => VOp::End(rng.below(10) as i64),
         });
     }
-    ViewCase { file_len, a, b, ops }
+    let pre = if rng.chance(1, 2) { rng.below(file_len as u64 + 6) } else { 0 };
+    ViewCase { file_len, a, b, ops, pre }
 }
 
 fn scratch_file(bytes: &[u8]) -> tempfile::NamedTempFile {
@@ -96,7 +100,15 @@ pub fn run_view(vc: &ViewCase) -> Verdict {
     let bytes: Vec<u8> = (0..vc.file_len).map(file_byte).collect();
     let tmp = scratch_file(&bytes);
     let res = std::panic::catch_unwind(std::panic::AssertUnwindSafe(|| -> Result<(), (String, String)> {
-        let f = std::fs::File::open(tmp.path()).map_err(|e| ("harness".to_string(), e.to_string()))?;
+        let mut f = std::fs::File::open(tmp.path()).map_err(|e| ("harness".to_string(), e.to_string()))?;
+        if vc.pre > 0 {
+            // the handle has a past (the parallel paths hand over handles that indexing or chunking already used)
+            use std::io::{Read, Seek, SeekFrom};
+            let back = vc.pre.min(3);
+            f.seek(SeekFrom::Start(vc.pre - back)).map_err(|e| ("harness".to_string(), e.to_string()))?;
+            let mut scratch = vec![0u8; back as usize];
+            let _ = f.read(&mut scratch);
+        }
         let mut view = FileView::new(f, vc.a, vc.b).map_err(|e| ("view-error".to_string(), format!("new: {}", e)))?;
         // reference model: the range in isolation, seeks clamp into it
         let lo = vc.a as usize;
